@@ -20,6 +20,7 @@ let rec pos_of_int n = if n = 1 then XH else if n land 1 = 0 then XO (pos_of_int
 let z_of_int n = if n = 0 then Z0 else if n > 0 then Zpos (pos_of_int n) else Zneg (pos_of_int (-n))
 let rec int_of_pos = function XH -> 1 | XO p -> 2 * int_of_pos p | XI p -> 2 * int_of_pos p + 1
 let int_of_z = function Z0 -> 0 | Zpos p -> int_of_pos p | Zneg p -> - (int_of_pos p)
+let string_of_z z = (* non-negative Z below 2^62 *) string_of_int (int_of_z z)
 let rec nat_of_int n = if n <= 0 then O else S (nat_of_int (n - 1))
 
 let split_on c s = if s = "" then [] else String.split_on_char c s
@@ -104,6 +105,28 @@ let handle id kind fields =
   | "connect", [n; a; o] ->
     res_line id (run_connect (cs n) (parse_attrs a) (parse_els o)) (fun (nm, at) -> hs nm ^ "\t" ^ show_attrs at)
   | "front", fs -> front id fs
+  | "theme", [cl; el; th; bg; fs; ff; lid] ->
+    let lst f = List.map cs (split_on ',' f) in
+    let shows l = String.concat "," (List.map hs l) in
+    res_line id (run_theme (lst cl) (lst el) (cs th) (cs bg) (cs fs) (cs ff) (if lid = "" then None else Some (cs lid)))
+      (fun (d, s) -> shows d ^ "\t" ^ shows s)
+  | "autostyles", [add; root; evs; th; bg; fs; ff; lid] ->
+    let lst f = List.map cs (split_on ',' f) in
+    let shows l = String.concat "," (List.map hs l) in
+    let ev e = match String.split_on_char '|' e with
+      | [n; c] -> (cs n, lst c) | _ -> failwith "event" in
+    (match run_autostyles (add = "1") (root = "1") (List.map ev (split_on ';' evs)) (cs th) (cs bg) (cs fs) (cs ff)
+             (if lid = "" then None else Some (cs lid)) with
+     | None -> Printf.printf "%s\tNONE\n" id
+     | Some r -> res_line id r (fun (d, s) -> shows d ^ "\t" ^ shows s))
+  | "evalattr", [v; ""; seed] when (match run_rng_attr (cs v) Z0 with Some _ -> true | None -> false) ->
+    (* values made only of random()/randint() calls (C06); anything else is not handled here *)
+    let rec z_of_string s = (* decimal u64, may exceed OCaml's int *)
+      String.fold_left (fun acc c -> Model.Z.add (Model.Z.mul acc (z_of_int 10)) (z_of_int (Char.code c - 48))) Z0 s in
+    (match run_rng_attr (cs v) (z_of_string seed) with
+     | Some (Ok s, w) -> Printf.printf "%s\tOK\t%s\t%s\n" id (hs s) (string_of_z w)
+     | Some (Err k, w) -> Printf.printf "%s\tERR\t%s\t%s\n" id (implode (errkind_name k)) (string_of_z w)
+     | _ -> Printf.printf "%s\tSKIP\n" id)
   | _ -> Printf.printf "%s\tSKIP\n" id
 
 let () =
